@@ -34,16 +34,6 @@ impl MemoryFS {
             handle: Arc::new(RwLock::new(MemoryFsImpl::new())),
         }
     }
-
-    fn ensure_has_parent(&self, path: &str) -> VfsResult<()> {
-        let separator = path.rfind('/');
-        if let Some(index) = separator {
-            if self.exists(&path[..index])? {
-                return Ok(());
-            }
-        }
-        Err(VfsErrorKind::Other("Parent path does not exist".into()).into())
-    }
 }
 
 impl Default for MemoryFS {
@@ -199,10 +189,12 @@ impl FileSystem for MemoryFS {
             // the root always exists
             return Err(VfsErrorKind::DirectoryExists.into());
         }
-        self.ensure_has_parent(path)?;
         #[cfg(feature = "verif-hooks")]
         crate::verif_hooks::yield_point("memory::create_dir");
-        let map = &mut self.handle.write().unwrap().files;
+        // the parent check and the insertion happen under one write lock
+        let mut handle = self.handle.write().unwrap();
+        handle.ensure_has_parent(path)?;
+        let map = &mut handle.files;
         let entry = map.entry(path.to_string());
         match entry {
             Entry::Occupied(file) => {
@@ -242,11 +234,12 @@ impl FileSystem for MemoryFS {
     }
 
     fn create_file(&self, path: &str) -> VfsResult<Box<dyn SeekAndWrite + Send>> {
-        self.ensure_has_parent(path)?;
         let content = Arc::new(Vec::<u8>::new());
         #[cfg(feature = "verif-hooks")]
         crate::verif_hooks::yield_point("memory::create_file");
+        // the parent check and the insertion happen under one write lock
         let mut handle = self.handle.write().unwrap();
+        handle.ensure_has_parent(path)?;
         if let Some(existing) = handle.files.get(path) {
             ensure_file(existing)?;
         }
@@ -354,12 +347,17 @@ impl FileSystem for MemoryFS {
     }
 
     fn remove_dir(&self, path: &str) -> VfsResult<()> {
-        if self.read_dir(path)?.next().is_some() {
-            return Err(VfsErrorKind::Other("Directory to remove is not empty".into()).into());
-        }
         #[cfg(feature = "verif-hooks")]
         crate::verif_hooks::yield_point("memory::remove_dir");
+        // the type / emptiness checks and the removal happen under one write lock
         let mut handle = self.handle.write().unwrap();
+        let file = handle.files.get(path).ok_or(VfsErrorKind::FileNotFound)?;
+        if file.file_type != VfsFileType::Directory {
+            return Err(VfsErrorKind::Other("Not a directory".into()).into());
+        }
+        if handle.has_children(path) {
+            return Err(VfsErrorKind::Other("Directory to remove is not empty".into()).into());
+        }
         handle
             .files
             .remove(path)
@@ -373,6 +371,28 @@ struct MemoryFsImpl {
 }
 
 impl MemoryFsImpl {
+    /// Checks (under the caller's lock) that the parent of `path` is an existing directory
+    fn ensure_has_parent(&self, path: &str) -> VfsResult<()> {
+        let separator = path.rfind('/');
+        if let Some(index) = separator {
+            if let Some(parent) = self.files.get(&path[..index]) {
+                if parent.file_type == VfsFileType::Directory {
+                    return Ok(());
+                }
+                return Err(VfsErrorKind::Other("Parent path is not a directory".into()).into());
+            }
+        }
+        Err(VfsErrorKind::Other("Parent path does not exist".into()).into())
+    }
+
+    /// Returns true if any entry lives below the directory `path`
+    fn has_children(&self, path: &str) -> bool {
+        let prefix = format!("{}/", path);
+        self.files
+            .keys()
+            .any(|candidate| candidate.starts_with(&prefix))
+    }
+
     pub fn new() -> Self {
         let mut files = HashMap::new();
         // Add root directory
